@@ -73,8 +73,15 @@ def fork_job(args):
                 return out
         k_real = len(a.packets)
         # ---- save and restore
-        blob = pickle.dumps(a.searcher)
-        restored = pickle.loads(blob)
+        try:
+            blob = pickle.dumps(a.searcher)
+            restored = pickle.loads(blob)
+        except Exception as e:
+            # a searcher that cannot be saved / restored at this point: reported by the fork clause, nothing to continue with
+            out["resume"] = {"tid": tid, "events": [{"op": "fork", "k": k_real, "equal": "pickle:" + type(e).__name__}], "sig": "flavour=%s" % fl}
+            out["queue"] = None
+            out["k"] = k_real
+            return out
         try:
             equal = "T" if restored == a.searcher else "F"
         except Exception as e:
@@ -145,7 +152,7 @@ def run(tier: str, seed: int) -> int:
     resume = [r["resume"] for r in res]
     for r in res:
         run_.events += len(r["resume"]["events"])
-        if r.get("k", 0) >= 1 and len(r["resume"]["events"][1]["a"]["packets"]) >= 1:
+        if r.get("k", 0) >= 1 and len(r["resume"]["events"]) > 1 and len(r["resume"]["events"][1]["a"]["packets"]) >= 1:
             run_.nt(r["tid"])
     run_.evaluations = len(res)
     run_.sample({"tid": resume[len(resume) // 2]["tid"], "fork": resume[len(resume) // 2]["events"][0],
@@ -156,6 +163,8 @@ def run(tier: str, seed: int) -> int:
     # queue traffic across the interruption
     by = {}
     for r in res:
+        if not r["queue"]:
+            continue
         sh = r["queue"]["shape"]
         by.setdefault((sh[0], sh[1], tuple(sh[2])), []).append(r["queue"]["trace"])
     for shape, traces in by.items():
